@@ -1,8 +1,14 @@
-(* C04_Generated.v — equivalence of the GoLite translation of pkix.IsSubsetDN
-   (theories/C04_Gen.v, regenerated from /repo by `vh-gen` on every run,
-   docs/GOLITE.md) with the C04 model, for ALL inputs: a Go map is any
-   association list (any order; a shadowed binding is invisible, exactly as in
-   the model, which looks every key up). *)
+(* C04_Generated.v — equivalence of the GoLite translations (theories/C04_Gen.v,
+   regenerated from /repo by `vh-gen` on every run, docs/GOLITE.md; targets in
+   harness/cmd/vh-gen/targets_c04.go) with the C04 model, for ALL inputs:
+     pkix.IsSubsetDN, slices.Contains, verifier.verifyX509TrustedIdentities,
+     verifier.isCriticalFailure, trustpolicy.validateOverlappingDNs,
+     trustpolicy.validateTrustedIdentities
+   (oracle: pkix.ParseDistinguishedName; opaque: x509.Certificate with Subject.String()),
+   and the property's theorems transported onto the translated code.
+   A Go map is any association list (any order; a shadowed binding is invisible,
+   exactly as in the model, which looks every key up).
+   Table function -> theorem -> hypotheses -> clause: docs/audit/C04.md, section GoLite. *)
 From Coq Require Import List Bool String Ascii NArith ZArith Lia.
 From NV Require Import Base GoLib C04_DN C04_Model C04_Proofs C04_Audit C04_Gen.
 Import ListNotations.
